@@ -136,6 +136,8 @@ def gen_program(rng, pkg, n=None, p_explicit=0.15, p_hidden=0.12, min_memento=2,
             # a string constant that lives in a nested code object of the body: the filter or the element expression of a
             # generator expression, a lambda
             nd["gx"] = {"shape": ["filter", "elem", "lam"][(nd["const"] + 2 * i) % 3], "s": "alpha"}
+        if kind in ("memento", "plain") and (nd["const"] + i) % 4 == 2:  # (no random draw)
+            nd["lamdefault"] = nd["const"] + 1  # a keyword-only parameter whose default value is a lambda
         if kind == "wrapped" and shadow and i == 2 and split > 2:
             nd["wrap_param"] = "a"
         elif kind == "wrapped":
@@ -474,6 +476,10 @@ def render_def(prog, i, skip_names=()):
         if not nd["kwonly"]:
             ps.append("*")
         ps.append("cb_=%s" % prog["nodes"][nd["cbdefault"]]["name"])
+    if nd.get("lamdefault") is not None:  # the default value of a parameter is a lambda
+        if not nd["kwonly"] and nd.get("cbdefault") is None:
+            ps.append("*")
+        ps.append("lam_=lambda v_: v_ * 2 + %d" % nd["lamdefault"])
     L = []
     if nd["kind"] == "memento":
         L.append("@m.memento_function" + ("(version=%r)" % nd["version"] if nd["version"] is not None else ""))
@@ -524,6 +530,8 @@ def render_def(prog, i, skip_names=()):
             L.append("    r += %s" % call_expr(prog, nd, c, "x + 1"))
     if nd.get("cbdefault") is not None:
         L.append("    r += cb_(x + 1)")
+    if nd.get("lamdefault") is not None:
+        L.append("    r += lam_(x)")
     ne = nd["nested"]
     if ne:
         tp = ne.get("param") or "t_"  # the name the nested scope binds
@@ -887,7 +895,7 @@ def apply_special(rng, prog, kind):
 
 EDIT_KINDS = ["const", "xconst", "tconst", "tperm", "builtin", "sconst", "nested_const", "op", "swap", "add_param", "default", "kwdefault",
               "add_call", "remove_call", "retarget_call", "retarget_alias", "var_value", "var_mutate", "version_bump",
-              "hidden_target", "prev_const", "guard_move", "deco_arg", "swap_aliases", "gx_const"]
+              "hidden_target", "prev_const", "guard_move", "deco_arg", "swap_aliases", "gx_const", "lamdefault"]
 
 
 def apply_edit(rng, prog, kind=None, force_var=None, force_node=None):
@@ -961,6 +969,11 @@ def apply_edit(rng, prog, kind=None, force_var=None, force_node=None):
                 if len(s) < 2:
                     s |= {"omega", "psi"}
                 nodes[i]["sconst"] = sorted(s)
+                return done(i)
+    if kind == "lamdefault":  # the body of a lambda that is the default value of a parameter
+        for i in cand:
+            if nodes[i].get("lamdefault") is not None:
+                nodes[i]["lamdefault"] += rng.randint(1, 5)
                 return done(i)
     if kind == "gx_const":  # the string constant inside a generator expression / lambda of the body
         for i in cand:
